@@ -467,6 +467,8 @@ type symEnv struct {
 	wraps []string
 	// havocLoops: loops are over-approximated (variables assigned in them become unknown)
 	havocLoops bool
+	// aliases: parameters of inlined helpers that stand for a container of the caller
+	aliases map[types.Object]string
 	// namedResults: the named results of the function being interpreted (innermost last)
 	namedResults [][]*ast.Ident
 	// zeroTrip: every loop is taken to run zero times (the evaluation is for inputs that make it so)
@@ -741,7 +743,10 @@ func (e *symEnv) eval(st *symState, x ast.Expr) Val {
 				idx := e.eval(st, x.Index)
 				e.record(st, "index", x.X, idx, x.Pos())
 				if idx.Lin != nil && e.elemForms {
-					return Val{Opaque: exprStr(x.X) + "[" + idx.Lin.String() + "]"}
+					return Val{Opaque: e.baseStr(x.X) + "[" + idx.Lin.String() + "]"}
+				}
+				if e.baseStr(x.X) != exprStr(x.X) {
+					return Val{Opaque: e.baseStr(x.X) + "[" + exprStr(x.Index) + "]"}
 				}
 			}
 		}
@@ -778,7 +783,7 @@ func (e *symEnv) eval(st *symState, x ast.Expr) Val {
 
 // record logs an index/slice/make event.
 func (e *symEnv) record(st *symState, kind string, base ast.Expr, idx Val, pos token.Pos) {
-	a := symAccess{Kind: kind, Base: exprStr(base), Index: idx.Lin, Cube: append(Cube{}, st.cube...), Pos: pos}
+	a := symAccess{Kind: kind, Base: e.baseStr(base), Index: idx.Lin, Cube: append(Cube{}, st.cube...), Pos: pos}
 	st.accesses = append(st.accesses, a)
 }
 
@@ -1088,6 +1093,17 @@ func (e *symEnv) inlineCall(st *symState, call *ast.CallExpr) []*symState {
 	for i, p := range params {
 		v := e.eval(st, call.Args[i])
 		if o := e.info.Defs[p]; o != nil {
+			// a container handed to the helper is known inside under the caller's name for it
+			// (a field of the receiver passed as a parameter)
+			if _, isSel := ast.Unparen(call.Args[i]).(*ast.SelectorExpr); isSel || e.baseStr(call.Args[i]) != exprStr(call.Args[i]) {
+				switch o.Type().Underlying().(type) {
+				case *types.Slice, *types.Map, *types.Array:
+					if e.aliases == nil {
+						e.aliases = map[types.Object]string{}
+					}
+					e.aliases[o] = e.baseStr(call.Args[i])
+				}
+			}
 			st2.vars[objKey(o)] = v
 			if e.onInlineBind != nil {
 				e.onInlineBind(st, st2, o, call.Args[i])
@@ -1930,4 +1946,17 @@ func funcTypeOfBody(info *types.Info, body *ast.BlockStmt) *ast.FuncType {
 		}
 	}
 	return best
+}
+
+// baseStr renders the container expression of an element access; a parameter of an inlined helper
+// that was bound to a container of the caller is rendered as the caller wrote it.
+func (e *symEnv) baseStr(x ast.Expr) string {
+	if id, ok := ast.Unparen(x).(*ast.Ident); ok && e.aliases != nil {
+		if o := e.info.Uses[id]; o != nil {
+			if s, ok := e.aliases[o]; ok {
+				return s
+			}
+		}
+	}
+	return exprStr(x)
 }
